@@ -28,13 +28,14 @@ void harness(void)
 	for (i = 0; i < PRE; i++) s[i] = 'a';
 	for (i = 0; i < T; i++) s[PRE + i] = al[V_IN_RANGE("ch", 0, 3)];
 	s[PRE + T] = 0;
-	n = strlen(s);
+	for (n = PRE; n < PRE + T && s[n]; n++) { }
 	p.sep = SEP; p.assign = 0;
 	elem = mpt_path_set(&p, s, -1);
 	V_ASSERT(elem >= 1, "a terminated string has at least one element");
 	q = p;
 	/* reference walk */
-	for (i = 0; i <= n; i++) {
+	/* the concrete prefix holds no separator: start the walk behind it */
+	for (i = PRE; i <= n; i++) {
 		if (i == n || s[i] == SEP) {
 			size_t off_before = p.off;
 			r = mpt_path_next(&p);
